@@ -22,6 +22,28 @@ CLAIMED = {
         note="Modelled not verified: CPython weakref death (explicit kill op), fnmatch restricted to literals/*/?; exception classes mapped to an enum.",
         technique="Lean 4 proof (invariant induction over ops and fuel) + model/implementation correspondence",
     ),
+    "C19": dict(
+        text=("Machine-checked Lean 4 theorems about an executable model of Kerning.find (literal port of fontTools "
+              "lookupKerningValue as defcon calls it), the four group-table factories, their caching in getRepresentation "
+              "with eviction on Groups.Changed, the BaseDictObject mutators of Groups/Kerning, lazy load and "
+              "reloadGroups/reloadKerning (incl. readGroups de-duplication and groupsValidator): for all kerning/groups "
+              "obeying the kerning-group rule the lookup equals a reference that scans the groups and takes the first "
+              "defined of (a,b),(a,G2 b),(G1 a,b),(G1 a,G2 b) else the default; for ALL operation sequences the cached "
+              "machine answers exactly like a cache-free machine (refinement by induction over ops), hence cached tables "
+              "are always current and find tracks every edit; table contents characterised; reload yields rule-obeying "
+              "groups. Tied to the code by a differential run on generated edit/lookup histories over new fonts and fonts "
+              "opened from temp UFOs (external edits + reload), and a brute-force reference oracle evaluated on the "
+              "implementation's own answers and tables."),
+        design="DESIGN.md section 5 (C19)",
+        note=("Modelled not verified: fontTools lookupKerningValue / UFOReader.readGroups / groupsValidator are ported by hand "
+              "(validated by the correspondence runs); str.startswith as list-prefix on code points; kerning values are ints. "
+              "Outside the quantified domain (stated as assumptions): dict methods defcon does not override (pop, popitem, "
+              "setdefault, |=), in-place mutation of member lists, and edits made while the Groups object's notifications "
+              "are held/disabled by the caller - these bypass Groups.Changed and do leave stale tables. On content that breaks "
+              "the kerning-group rule only model=code is compared (the code takes the last group in dict order; theorem "
+              "find_general)."),
+        technique="Lean 4 proof (refinement of a cached machine to a cache-free one by induction over ops; list/assoc-list lemmas) + model/implementation correspondence",
+    ),
 }
 
 NOT_YET = {}
